@@ -231,7 +231,19 @@ func c19Mutate(r *vlib.Rand, t string) (string, string) {
 		lines = append(lines[:i], append([]string{cm}, lines[i:]...)...)
 		return strings.Join(lines, "\n"), "line_break_lookalike_in_comment"
 	}
-	switch r.Intn(14) {
+	switch r.Intn(15) {
+	case 14: // percent sequences (URL escapes, things that look like formatting verbs) inside or at the end of a value
+		pc := vlib.Pick(r, []string{"%2F", "%20", "%s", "%d", "%v", "%", "%%", "%!", "%[1]s", "%x%y", "%2", "%G1"})
+		if k, ok := pick('s'); ok && k.e-k.s >= 2 && r.Bool() {
+			pos := k.s + 1 + r.Intn(k.e-k.s-1)
+			if r.Bool() {
+				pos = k.e - 1
+			}
+			return t[:pos] + pc + t[pos:], "percent_in_value"
+		}
+		if k, ok := pick('i'); ok {
+			return t[:k.e] + pc + t[k.e:], "percent_in_value"
+		}
 	case 0: // quote an unquoted value
 		if k, ok := pick('i'); ok {
 			return t[:k.s] + `"` + t[k.s:k.e] + `"` + t[k.e:], "quote_value"
